@@ -2,10 +2,10 @@
 
      model/network/graph.rs                     Graph::{get_edge, get_vertex, edge_triplet}     -> get_edge, get_vertex, edge_triplet
      model/traversal/default/
-       distance_traversal_model.rs              DistanceTraversalModel::{traverse_edge, estimate_traversal}
+       distance_traversal_model.rs              DistanceTraversalModel::traverse_edge   (estimate_traversal: haversine, not modelled)
        speed_traversal_engine.rs                SpeedTraversalEngine::new, get_max_speed        -> engine_new, get_max_speed
-       speed_traversal_model.rs                 SpeedTraversalModel::{traverse_edge, estimate_traversal, state_features}, get_speed
-                                                                                                -> traverse_edge, estimate_traversal, tm_state_features
+       speed_traversal_model.rs                 SpeedTraversalModel::{traverse_edge, state_features}, get_speed
+                                                                                                -> traverse_edge, tm_state_features
      model/access/default/turn_delays/
        edge_heading.rs                          EdgeHeading::{start_heading, end_heading, bearing_to_destination}
        turn.rs                                  Turn, Turn::from_angle   (rows from Gen/TurnTable.v, regenerated from the source)
@@ -189,18 +189,6 @@ Section Model.
         do edge_time <- create_time N speed (sp_su en) distance (sp_du en) (sp_tu en);
         do st1 <- add_time N sm st time_name edge_time (sp_tu en);
         add_distance N sm st1 distance_name distance (sp_du en)
-    end.
-
-  (* TraversalModel::estimate_traversal; [hav] = haversine::coord_distance(src, dst, du), computed outside *)
-  Definition estimate_traversal (tm : tmodel N) (sm : smodel N) (hav : N) (st : state) : res state :=
-    match tm with
-    | TMDistance du => add_distance N sm st distance_name hav du
-    | TMSpeed en =>
-        if eqb hav zero then Ok st
-        else
-          do t <- create_time N (sp_max en) (sp_su en) hav (sp_du en) (sp_tu en);
-          do st1 <- add_time N sm st time_name t (sp_tu en);
-          add_distance N sm st1 distance_name hav (sp_du en)
     end.
 
   (* get_headings *)
